@@ -833,8 +833,32 @@ class CallsMixin:
             elif m == '*heap':
                 for key in list(self.all_heap_keys()):
                     self.havoc_field(key)
+            elif m == '*ghost':
+                for g, (kind, _) in self.w.ghost.items():
+                    self.p.globals[g] = self.p.fresh_value(kind, 'g!' + g)
+            elif '[' in m:
+                key, expr = m[:-1].split('[', 1)
+                saved_spec, sub.spec = sub.spec, True
+                try:
+                    v = sub.eval_text(expr)
+                finally:
+                    sub.spec = saved_spec
+                if isinstance(v.kind, K.Opt):
+                    v = K.opt_inner(v)
+                self.havoc_field_at(key, v)
             else:
                 self.havoc_field(m)
+
+    def havoc_field_at(self, key, ref):
+        cls, f = key.split('.')
+        owner, kind = self.w.field_kind(cls, f)
+        if owner is None:
+            raise Unsupported('modifies names undeclared field %s' % key)
+        k2 = '%s.%s' % (owner, f)
+        self.p.heap_epoch += 1
+        arrs = self.heap_arrays(k2, kind)
+        self.p.heap[k2] = [z3.Store(a, ref.t, self.p.fresh('Hat!%s!%d' % (key, i), s_))
+                           for i, (a, s_) in enumerate(zip(arrs, kind.leaf_sorts()))]
 
     def all_heap_keys(self):
         for cls, d in self.w.classes.items():
